@@ -292,6 +292,13 @@ func Catalogue(prop, tier string) []Cfg {
 		}
 	case "C17":
 		scripts()
+		// GracefulStop() pending on open inputs, ended by removing them
+		for _, env := range []string{"rr", "pool"} {
+			g := pc("v1", []uint{2, 1}, 2, "fair", []int{2}, []int{2, 1}, env, "gracefulfirst")
+			add(g)
+			g = pc("v1", []uint{3, 2, 1}, 3, "fair", []int{1}, []int{1, 0, 1}, env, "gracefulfirst")
+			add(g)
+		}
 		for _, env := range []string{"rr"} {
 			n2, n21 := []int{1}, []int{1, 1}
 			if !quick {
